@@ -12,10 +12,10 @@ Theorem C18_counts : length doc_names = 95%nat /\ length remotes = 76%nat /\
 Proof. exact doc_counts. Qed.
 Print Assumptions C18_counts.
 
-(** every name of the four shipped tables, in both '-' / '_' spellings, resolves to a loader of its family *)
+(** every name of the four shipped tables, in the documented, all-'_' and all-'-' spellings, resolves to a loader of its family *)
 Theorem C18_all_documented_names_resolve : forall fam name file, In (fam, name, file) doc_names ->
-  exists l1 l2, resolve name = Ok l1 /\ resolve (underscore name) = Ok l2 /\
-                family_of l1 = fam /\ family_of l2 = fam.
+  exists l1 l2 l3, resolve name = Ok l1 /\ resolve (underscore name) = Ok l2 /\ resolve (hyphenate name) = Ok l3 /\
+                family_of l1 = fam /\ family_of l2 = fam /\ family_of l3 = fam.
 Proof. exact all_documented_names_resolve. Qed.
 Print Assumptions C18_all_documented_names_resolve.
 
